@@ -2,7 +2,7 @@
 PROPERTY = 'C17'
 THOROUGH_SEEDS = 1      # the thorough enumeration of this driver is already minutes long
 LEVEL = 'proof'
-DEDUCTIVE = ['contracts.c17_data']
+DEDUCTIVE = ['contracts.c17_data', 'contracts.c17_update']
 BUDGET_S = {'quick': 20.0, 'thorough': 60.0}
 MIN_OBLIGATIONS = {'quick': 200, 'thorough': 200}
 BOUNDED_FLOOR = {'quick': 2000, 'thorough': 8000}
